@@ -206,7 +206,16 @@ def rule_known_coalitions(prog: Program, col: Collector) -> None:
     vals = [v for v, _ in ys]
     has_empty = any(is_call_to(v, P + "coalitions.Coalition") and v[2] == (("const", 0),) for v in vals)
     has_grand = any(is_call_to(v, P + "coalitions.grand_coalition") for v in vals)
-    has_single = any(v[0] == "comp" and is_call_to(v[3][0][1], "range") and
+    pp = ("param", ref.positional_params()[0])
+    n_of = ("ifexp", ("call", ("global", "isinstance"), (pp, ("global", "int")), ()), pp, ("attr", pp, "number_of_players"))
+
+    def all_players(it: Term) -> bool:
+        """range(n) / range(0, n) with n the player count of the argument (an int or a game)."""
+        if not (is_call_to(it, "range") and not it[3]):
+            return False
+        a = tuple(("ifexp",) + x[1:] if x[0] == "phi" else x for x in it[2])
+        return a in ((n_of,), (("const", 0), n_of), (("const", 0), n_of, ("const", 1)))
+    has_single = any(v[0] == "comp" and len(v[3]) == 1 and not v[3][0][2] and all_players(v[3][0][1]) and
                      (v[2] == ("call", ("global", P + "coalitions.Coalition.from_players"), (("list", (v[3][0][0],)),), ()) or
                       v[2] == ("call", ("global", P + "coalitions.player_to_coalition"), (v[3][0][0],), ())) for v in vals)
     if any(v[0] == "unknown" for v in vals):
